@@ -52,7 +52,7 @@ CHECKS = {
     ),
     "C08": dict(
         text="Partial: decides the kick-drift-kick structure, force at the new positions, that written thermo (HDF5 rows and XYZ comment lines) belongs to the written phase point for every output cadence combination and molid selection, and transfers exact momentum / angular-momentum conservation and reversibility from an exact model; periodic COM removal zeroes the momenta about the centre of mass, keeps the kinetic energy and leaves them conserved in between. TLC checks VVExact (dyadic-rational velocity Verlet, 3 particles, masses {1,2}, dt 1/2, linear springs, optional field) over the initial-condition lattice; order mutants are refuted. Every exported behaviour is replayed on the real Molecular_Dynamics_Basic.run (stub ES = the same springs, dyadic masses) and coordinates, velocities, forces, Ek, Ep, T rows of the HDF5 output must equal the exact rationals to 1e-11 for their own step label; variants: non-nested output cadences (data/vectors/screen/xyz), two-row batches with molid [1] / [1,0], COM removal (linear/angular, strides 1/2) on geometries away from the origin.",
-        note="Exact model limited to <=3 steps by 32-bit integers; unit constants are the driver's own literals. Second-order accuracy, time reversal and absence of drift on the real SCF surface are monitored numerically (step halving 0.4/0.2/0.1 fs: error and fluctuation ratios within [2.8, 5.5] / [2.5, 6.5]; reversal to 1e-7; drift below 1.5 x fluctuation), not derived.",
+        note="Exact model limited to <=3 steps by 32-bit integers; unit constants are the driver's own literals. Second-order accuracy, time reversal and absence of drift on the real SCF surface are monitored numerically (step halving 0.4/0.2/0.1/0.05 fs on generically oriented molecules: end-point difference and fluctuation ratios within [3.5, 4.6] / [3.3, 4.8], observed 4.00-4.06; reversal to 1e-7; drift below 1.5 x fluctuation). Known finding: geometries with a bond along the x axis converge at first order only (antipodal snap of the local-frame rotation).",
         tech="explicit TLA+ exact-arithmetic model (VVExact) checked by TLC; TLC-exported behaviours replayed on the real integrator and compared with the model's rationals",
         ref="DESIGN.md §4 C08",
     ),
